@@ -156,6 +156,10 @@ func (acl *ACL) RegisterConnection(conn *net.Conn) {
 }
 
 func (acl *ACL) SetUser(cmd []string) error {
+	if len(cmd) == 0 {
+		return errors.New("username is required")
+	}
+
 	acl.LockUsers()
 	defer acl.UnlockUsers()
 
